@@ -132,11 +132,15 @@ def main(argv=None) -> int:
     ap.add_argument("--tier", default=os.environ.get("VERIF_TIER", "quick"), choices=["quick", "thorough"])
     ap.add_argument("--replay")
     ap.add_argument("--all", action="store_true")
+    ap.add_argument("--selfcheck", action="store_true", help="engine unit checks (used by MANIFEST.setup_cmd)")
     args = ap.parse_args(argv)
     try:
         seed = int(os.environ.get("VERIF_SEED", "0"))
     except ValueError:
         seed = 0
+    if args.selfcheck:
+        from . import unit
+        return unit.main()
     if args.replay:
         return replay(args.replay)
     if args.all:
